@@ -41,4 +41,39 @@ structure StateCell where
   kinds : List WriteKind
 deriving DecidableEq, Repr
 
+/-- how one place touches a package-level variable -/
+inductive Touch
+  | reads        -- the value is used (also: the function stored in the variable is called)
+  | writes       -- a value computed at run time is stored
+  | resets       -- the variable's initial value is stored (its initialiser, or the zero value)
+  | sets         -- some other constant-like value is stored (a literal, a declared function, a closure that captures nothing)
+  | readsWrites  -- both (`x++`, `x += e`, `&x`, a pointer-receiver method of unknown effect)
+deriving DecidableEq, Repr
+
+/-- one place that touches a package-level variable: the function it is in, whether it touches the
+variable itself (`via = ""`) or calls an accessor of the variable's package, whether the function
+is itself such an accessor, and under which conditions the place is executed inside its function:
+`conds` = the enclosing constructs from the function body down to the place, outermost first;
+`guards` = the earlier top-level statements of the function that can leave it -/
+structure CellUse where
+  pkg : String
+  name : String
+  file : String
+  fn : String
+  touch : Touch
+  via : String
+  accessor : Bool
+  conds : List String
+  guards : List String
+deriving DecidableEq, Repr
+
+/-- one call inside a function on the entry path of a run, in source order -/
+structure EntryStep where
+  file : String
+  fn : String
+  callee : String
+  conds : List String
+  guards : List String
+deriving DecidableEq, Repr
+
 end Model.Sites
